@@ -93,7 +93,7 @@ class Outcome:
         self.samples = []
 
 
-def run_cases(sc, wire, cases, name='b', runtime=True, check=False, show=False, build=True, notes=False, switches=(True, True, True),
+def run_cases(sc, wire, cases, name='b', runtime=True, check=False, show=False, build=True, notes=False, single=False, switches=(True, True, True),
               allow_typeerr=(), gate=True, gen_args=(), tool_timeout=300):
     """Full pipeline on a list of cases. Returns Outcome (violations NOT yet confirmed)."""
     out = Outcome()
@@ -106,7 +106,7 @@ def run_cases(sc, wire, cases, name='b', runtime=True, check=False, show=False, 
         typecheck_gate(b, dirs, allow_typeerr)
     cases_path = sc.path(name + '.cases.ndjson')
     b.write_cases(cases_path)
-    tr = core.ToolRun(b, wire, 'gen', timeout=tool_timeout, args=gen_args)
+    tr = core.ToolRun(b, wire, 'gen', timeout=tool_timeout, args=gen_args, chunk=1 if single else 150)
     obs = tr.run_all()
     wrote = [d for d in dirs if obs[d]['wrote']]
     if build and wrote:
